@@ -317,6 +317,9 @@ def run(P, R, L):
     ord11(P, R, L)
     ord12(P, R, L)
     from . import common as K
+    R.clause("PAIR-10", "a table builder that was finalized/abandoned is removed from the compaction state on every path (a later abandon() of a closed "
+             "builder would panic the background thread while the scheduled flag is set)")
+    K.pair10_builder_slot(P, R, L)
     R.clause("ORD-17", "a manual compaction request observed by a worker run is always consumed (done written, slot cleared)")
     K.ord17_manual_slot(P, R, L)
     R.not_decided += ["that the background thread never panics (value-level reachability of unwrap/assert/index sites)",
